@@ -3,7 +3,13 @@
 #[verifier::external_body] pub struct IfAddr { x: u8 }
 // ServiceInfo: opaque but for its per-interface status table; DnsRegistry: opaque but for a ghost log of the
 // announcements made with it (announce_service_on_intf) - what the re-send handler is specified against
-#[verifier::external_body] pub struct DnsRegistry { x: u8 }
+// DnsRegistry: the list of wake-up times its probes asked for (drained into the daemon's timer heap by the callers)
+// is visible; the rest is opaque but for a ghost log of the announcements made with it
+#[verifier::external_body] pub struct RegistryRest { x: u8 }
+impl RegistryRest {
+    pub uninterp spec fn announce_log(&self) -> Seq<(int, MyIntf, bool)>;
+}
+pub struct DnsRegistry { pub new_timers: Vec<u64>, pub rest: RegistryRest }
 #[verifier::external_body] pub struct ServiceInfo { x: u8 }
 impl ServiceInfo {
     pub uninterp spec fn statuses(&self) -> Map<u32, ServiceStatus>;
@@ -11,14 +17,17 @@ impl ServiceInfo {
     pub uninterp spec fn ident(&self) -> int;
     #[verifier::external_body]
     pub fn set_status(&mut self, if_index: u32, status: ServiceStatus)
-        ensures final(self).statuses() == old(self).statuses().insert(if_index, status), final(self).ident() == old(self).ident(),
+        ensures final(self).statuses() == old(self).statuses().insert(if_index, status), final(self).ident() == old(self).ident(), final(self).fullname() == old(self).fullname(),
     { unimplemented!() }
     #[verifier::external_body]
     pub fn get_hostname(&self) -> (r: &str) { unimplemented!() }
+    pub uninterp spec fn fullname(&self) -> Seq<char>;
+    #[verifier::external_body]
+    pub fn get_fullname(&self) -> (r: &str) ensures r@ == self.fullname() { unimplemented!() }
 }
 impl DnsRegistry {
     // (service, interface, whether a packet went out) per call of announce_service_on_intf
-    pub uninterp spec fn announce_log(&self) -> Seq<(int, MyIntf, bool)>;
+    pub open spec fn announce_log(&self) -> Seq<(int, MyIntf, bool)> { self.rest.announce_log() }
     #[verifier::external_body]
     pub fn resolve_name<'a>(&'a self, name: &'a str) -> (r: &'a str) { unimplemented!() }
 }
